@@ -7,7 +7,8 @@ RING_HARNESS = ["kfmt/c16rb_ring_test.go"]
 HAL_HARNESS = ["hal/c16_bringup_test.go"]
 HAL_SHIM = {"kernel/device/zz_verif_c16_device_shim.go": "hal/c16_device_shim.go",
             "kernel/device/tty/zz_verif_c16_tty_shim.go": "hal/c16_tty_shim.go",
-            "kernel/kfmt/zz_verif_c16_kfmt_shim.go": "hal/c16_kfmt_shim.go"}
+            "kernel/kfmt/zz_verif_c16_kfmt_shim.go": "hal/c16_kfmt_shim.go",
+            "kernel/device/video/console/zz_verif_c16_console_shim.go": "hal/c16_console_shim.go"}
 UNITS = [341, 7, 680]
 
 
@@ -65,7 +66,7 @@ def run_ring(ctx, d, q):
     scripts = os.path.join(ctx.work, "c16_ring_scripts.ndjson")
     sel = os.path.join(ctx.work, "c16_ring_sel.ndjson")
     allscripts = unwrap(scripts)
-    chosen = pick(allscripts, 900 if q else 0, ctx.seed)
+    chosen = pick(allscripts, 700 if q else 0, ctx.seed)
     with open(sel, "w") as f:
         for i, c in enumerate(chosen):
             c["var"] = i + ctx.seed
@@ -130,11 +131,12 @@ def run_hal(ctx, d, q):
     casesf = os.path.join(ctx.work, "c16_hal_cases.ndjson")
     sel = os.path.join(ctx.work, "c16_hal_sel.ndjson")
     allc = unwrap(casesf)
-    # quick tier: every scenario with >= 3 drivers and no environment chunk (all orders of several terminals / consoles /
-    # failing drivers) is always replayed; the rest is a seeded sample
+    # quick tier: seeded samples of the scenarios with >= 3 drivers and no environment chunk (orders of several terminals /
+    # consoles / failing drivers), of those with a font console, and of the rest
     if q:
         core = [c for c in allc if len(c["drv"]) >= 3 and not c["prints"]]
-        chosen = core + pick([c for c in allc if not (len(c["drv"]) >= 3 and not c["prints"])], 500, ctx.seed)
+        rest = [c for c in allc if not (len(c["drv"]) >= 3 and not c["prints"])]
+        chosen = pick(core, 250, ctx.seed) + pick([c for c in rest if any(d.get("font") for d in c["drv"])], 120, ctx.seed) + pick(rest, 330, ctx.seed + 1)
     else:
         chosen = allc
     with open(sel, "w") as f:
@@ -171,8 +173,10 @@ def run_hal(ctx, d, q):
     for m in mism[:3]:
         ev = m["case_events"]
         bad = ev[m["line_in_case"] - 1]
+        bad_full = bad
         if bad.get("k") == "end":
             bad = {k: v for k, v in bad.items() if k not in ("shown", "ring", "held")}
+            bad["log_tail"] = bytes(b for b in ((bad_full.get("shown") or [{"v": []}])[0]["v"] or bad_full.get("ring", []))[-400:] if b < 128).decode("latin-1")
         ctx.violation({"leg": ev[0].get("leg"), "part": "hal bring-up", "mismatch": m["mismatch"], "scenario": ev[0].get("sc"), "event": bad},
                       {"kind": "hal", "scenario": ev[0].get("sc")})
 
@@ -199,7 +203,8 @@ def run(ctx):
     ring_scripts = os.path.join(ctx.work, "c16_ring_scripts.ndjson")
     hal_cases = os.path.join(ctx.work, "c16_hal_cases.ndjson")
     rbugs = ["NoPushR", "SecondFirst"] if q else ["NoPushR", "SecondFirst", "NoWrapReset", "OffByOneFull"]
-    hbugs = ["NoSort", "NoDrain", "Relink"] if q else ["NoSort", "ActiveBeforeErr", "LaterConsoleWins", "LaterTTYWins", "NoDrain", "NoReport", "DrainTwice", "Relink"]
+    hbugs = (["NoSort", "Relink", "LinkBeforeFont", "StalePrefix"] if q else
+             ["NoSort", "ActiveBeforeErr", "LaterConsoleWins", "LaterTTYWins", "NoDrain", "NoReport", "DrainTwice", "Relink", "LinkBeforeFont", "StalePrefix", "FailSaysOk"])
 
     # ---- leg M: both design models against their monitors (they also emit the behaviours for leg G) + design mutants;
     #      the ring's legs G/T/V run beside them as soon as its scripts exist
@@ -228,7 +233,7 @@ def run(ctx):
             run_hal(ctx, d, q)
     ctx.cov["exhaustive"] = (not q) and not ctx.violations
     ctx.cov["explanation"] = ("exhaustive = every behaviour TLC enumerated for the two small-scope models was replayed on the real code and judged "
-                              "(thorough tier); the quick tier replays seeded samples (900 ring scripts; every 3-driver bring-up scenario without chunks plus 500 sampled ones)")
+                              "(thorough tier); the quick tier replays seeded samples (700 ring scripts; 700 bring-up scenarios: 250 with >= 3 drivers, 120 with font consoles, 330 others)")
 
 
 def replay(ctx, path):
